@@ -84,6 +84,8 @@ struct Dead {
     id: String,
     src: String,
     module_path: Option<String>,
+    /// for these programs the history parameter is "answer that many orders, then stop"
+    stall: bool,
 }
 
 fn dead_programs() -> Vec<Dead> {
@@ -91,18 +93,18 @@ fn dead_programs() -> Vec<Dead> {
     for (n, body) in NESTS {
         for (fname, fault) in FAULTS {
             let b = body.replace("FAULT", fault);
-            v.push(Dead { id: format!("err.{}.{}.top", n, fname), src: format!("'use strict';\n{{ {} }}", b), module_path: None });
-            v.push(Dead { id: format!("err.{}.{}.fn", n, fname), src: format!("'use strict';\n(function(){{ {} }})();", b), module_path: None });
+            v.push(Dead { id: format!("err.{}.{}.top", n, fname), src: format!("'use strict';\n{{ {} }}", b), module_path: None, stall: false });
+            v.push(Dead { id: format!("err.{}.{}.fn", n, fname), src: format!("'use strict';\n(function(){{ {} }})();", b), module_path: None, stall: false });
         }
         // module body variant (one fault kind)
         let b = body.replace("FAULT", FAULTS[0].1);
-        v.push(Dead { id: format!("err.{}.throw.module", n), src: format!("export const dead_exported = 1;\n{{ {} }}", b), module_path: Some("/dead/main.ts".into()) });
+        v.push(Dead { id: format!("err.{}.throw.module", n), src: format!("export const dead_exported = 1;\n{{ {} }}", b), module_path: Some("/dead/main.ts".into()), stall: false });
     }
     for (n, body) in BARE {
         for (fname, fault) in FAULTS {
-            v.push(Dead { id: format!("err.bare-{}.{}", n, fname), src: format!("'use strict';\n{}", body.replace("FAULT", fault)), module_path: None });
+            v.push(Dead { id: format!("err.bare-{}.{}", n, fname), src: format!("'use strict';\n{}", body.replace("FAULT", fault)), module_path: None, stall: false });
         }
-        v.push(Dead { id: format!("err.bare-{}.throw.module", n), src: format!("export const dead_exported = 1;\n{}", body.replace("FAULT", FAULTS[0].1)), module_path: Some("/dead/bare.ts".into()) });
+        v.push(Dead { id: format!("err.bare-{}.throw.module", n), src: format!("export const dead_exported = 1;\n{}", body.replace("FAULT", FAULTS[0].1)), module_path: Some("/dead/bare.ts".into()), stall: false });
     }
     v
 }
@@ -110,13 +112,13 @@ fn dead_programs() -> Vec<Dead> {
 /// runs that stop at a host interaction the host never answers
 fn stalled_programs() -> Vec<Dead> {
     vec![
-        Dead { id: "stall.order".into(), src: "import { order } from \"tsrun:host\";\n{ let dead_a = 1; const dead_r = await order({dead: 1}); dead_r; }".into(), module_path: None },
-        Dead { id: "stall.order-in-fn".into(), src: "import { order } from \"tsrun:host\";\n{ let dead_f = async function(){ let dead_a = 1; { let dead_b = await order({dead: 2}); return dead_b; } };\nawait dead_f(); }".into(), module_path: None },
-        Dead { id: "stall.never-settles".into(), src: "{ let dead_a = 1; const dead_p = new Promise(function(){}); await dead_p; }".into(), module_path: None },
-        Dead { id: "stall.two-orders".into(), src: "import { order } from \"tsrun:host\";\nconst dead_x = order({dead: 3}); const dead_y = order({dead: 4}); await Promise.all([dead_x, dead_y]);".into(), module_path: Some("/dead/orders.ts".into()) },
-        Dead { id: "stall.need-imports".into(), src: "import { dead_dep } from './never-supplied.ts';\n{ let dead_a = dead_dep; }".into(), module_path: Some("/dead/importer.ts".into()) },
-        Dead { id: "stall.syntax-error".into(), src: "{ let dead_a = ; }".into(), module_path: None },
-        Dead { id: "stall.rejected-unhandled".into(), src: "{ let dead_a = 1; Promise.reject(new Error('dead')); async function dead_f(){ throw new TypeError('dead2'); } dead_f(); }".into(), module_path: None },
+        Dead { id: "stall.order".into(), src: "import { order } from \"tsrun:host\";\n{ let dead_a = 1; const dead_r = await order({dead: 1}); dead_r; }".into(), module_path: None, stall: false },
+        Dead { id: "stall.order-in-fn".into(), src: "import { order } from \"tsrun:host\";\n{ let dead_f = async function(){ let dead_a = 1; { let dead_b = await order({dead: 2}); return dead_b; } };\nawait dead_f(); }".into(), module_path: None, stall: false },
+        Dead { id: "stall.never-settles".into(), src: "{ let dead_a = 1; const dead_p = new Promise(function(){}); await dead_p; }".into(), module_path: None, stall: false },
+        Dead { id: "stall.two-orders".into(), src: "import { order } from \"tsrun:host\";\nconst dead_x = order({dead: 3}); const dead_y = order({dead: 4}); await Promise.all([dead_x, dead_y]);".into(), module_path: Some("/dead/orders.ts".into()), stall: false },
+        Dead { id: "stall.need-imports".into(), src: "import { dead_dep } from './never-supplied.ts';\n{ let dead_a = dead_dep; }".into(), module_path: Some("/dead/importer.ts".into()), stall: false },
+        Dead { id: "stall.syntax-error".into(), src: "{ let dead_a = ; }".into(), module_path: None, stall: false },
+        Dead { id: "stall.rejected-unhandled".into(), src: "{ let dead_a = 1; Promise.reject(new Error('dead')); async function dead_f(){ throw new TypeError('dead2'); } dead_f(); }".into(), module_path: None, stall: false },
     ]
 }
 
@@ -127,8 +129,23 @@ fn abandon_programs() -> Vec<Dead> {
             id: format!("abandon.{}", n),
             src: format!("'use strict';\n{{ let dead_sink = []; {} dead_sink.length; }}", body.replace("FAULT", ABANDON_FAULT)),
             module_path: None,
+            stall: false,
         })
         .collect()
+}
+
+/// composed corpus programs whose numeric literals are read from the host (C07's generated
+/// family): the host answers the first k orders and then walks away, for every k
+fn stall_composed_programs(ctx: &Ctx) -> Vec<Dead> {
+    use super::c07;
+    let picks: Vec<(u64, u64)> = if ctx.thorough() { (0..c07::COMPOSED_SHARDS).flat_map(|sh| (0..3).map(move |i| (sh, i * 5 + sh % 5))).collect() } else { (0..6).map(|i| (ctx.seed % c07::COMPOSED_SHARDS, i * 7)).collect() };
+    let mut v = Vec::new();
+    for (sh, i) in picks {
+        if let Some(c) = c07::composed_case(sh, i, 0) {
+            v.push(Dead { id: format!("stall-{}", c.id), src: crate::asynchost::program(&c.body, true), module_path: if i % 2 == 0 { None } else { Some("/dead/composed.ts".into()) }, stall: true });
+        }
+    }
+    v
 }
 
 const DEAD_NAMES: &[&str] = &[
@@ -219,6 +236,60 @@ fn run_abandon(interp: &mut Interpreter, src: &str, s: u64) -> bool {
     true
 }
 
+/// prepare, step, answer the first `k` orders of the program (payload k -> 2k, as the
+/// scripted host of C07 does), then stop stepping while the run is still suspended.
+/// Returns false when the program finished before the host could walk away.
+fn run_stall(interp: &mut Interpreter, src: &str, path: Option<&str>, k: u64) -> bool {
+    let mut res = interp.prepare(src, path.map(ModulePath::new));
+    let mut answered = 0u64;
+    let mut steps = 0u64;
+    loop {
+        match res {
+            Ok(StepResult::Continue) => {}
+            Ok(StepResult::Suspended { pending, .. }) => {
+                if pending.is_empty() {
+                    return false;
+                }
+                let mut responses = Vec::new();
+                for o in &pending {
+                    if answered >= k {
+                        break;
+                    }
+                    let kv = tsrun::api::get_property(o.payload.value(), "k").ok().and_then(|v| v.as_number()).unwrap_or(0.0);
+                    responses.push(tsrun::OrderResponse { id: o.id, result: Ok(tsrun::RuntimeValue::unguarded(tsrun::JsValue::from(kv * 2.0))) });
+                    answered += 1;
+                }
+                if responses.len() < pending.len() {
+                    if !responses.is_empty() {
+                        interp.fulfill_orders(responses);
+                    }
+                    return true; // the host walks away with orders outstanding
+                }
+                interp.fulfill_orders(responses);
+            }
+            _ => return false,
+        }
+        steps += 1;
+        if steps > 2_000_000 {
+            return false;
+        }
+        res = interp.step();
+    }
+}
+
+fn orders_of(src: &str, path: Option<&str>) -> u64 {
+    // the number of orders the program issues when every one is answered
+    let mut n = 0;
+    while n < 200 {
+        let mut i = fresh_interp();
+        if !run_stall(&mut i, src, path, n) {
+            break;
+        }
+        n += 1;
+    }
+    n
+}
+
 fn observe(interp: &mut Interpreter) -> Vec<String> {
     let mut out = Vec::new();
     // what the host sees of the dead runs before any further program: no export table
@@ -271,16 +342,18 @@ struct Case {
     history: Vec<(usize, Option<u64>)>,
 }
 
-fn all_dead() -> Vec<Dead> {
+fn all_dead(ctx: &Ctx) -> Vec<Dead> {
     let mut v = dead_programs();
     v.extend(stalled_programs());
     v.extend(abandon_programs());
+    v.extend(stall_composed_programs(ctx));
     v
 }
 
 fn cases(ctx: &Ctx) -> Vec<Case> {
-    let dead = all_dead();
+    let dead = all_dead(ctx);
     let nerr = dead_programs().len() + stalled_programs().len();
+    let nstep = nerr + abandon_programs().len();
     let mut v = Vec::new();
     for (i, d) in dead.iter().enumerate() {
         if i < nerr {
@@ -288,7 +361,14 @@ fn cases(ctx: &Ctx) -> Vec<Case> {
         }
     }
     // abandonment at every step (quick: every 3rd step offset by the seed)
-    for (i, d) in dead.iter().enumerate().skip(nerr) {
+    // composed programs: the host answers k orders and walks away, for every k (capped)
+    for (i, d) in dead.iter().enumerate().skip(nstep) {
+        let n = orders_of(&d.src, d.module_path.as_deref()).min(if ctx.thorough() { 60 } else { 25 });
+        for k in 0..n {
+            v.push(Case { id: format!("{}@{}", d.id, k), history: vec![(i, Some(k))] });
+        }
+    }
+    for (i, d) in dead.iter().enumerate().skip(nerr).take(nstep - nerr) {
         let n = steps_of(&d.src);
         let stride = 1; // every abandonment step, in both tiers (cheap)
         let mut s = 0;
@@ -306,7 +386,7 @@ fn cases(ctx: &Ctx) -> Vec<Case> {
         let mut name = format!("seq{}", k);
         for _ in 0..len {
             let i = rng.below(dead.len());
-            let s = if i >= nerr { Some(rng.below(40) as u64 + 1) } else { None };
+            let s = if i >= nstep { Some(rng.below(6) as u64) } else if i >= nerr { Some(rng.below(40) as u64 + 1) } else { None };
             name.push_str(&format!("+{}{}", dead[i].id, s.map(|x| format!("@{}", x)).unwrap_or_default()));
             h.push((i, s));
         }
@@ -317,8 +397,8 @@ fn cases(ctx: &Ctx) -> Vec<Case> {
 
 const PER_UNIT: usize = 120;
 
-fn judge(r: &mut UnitResult, cs: &[Case]) {
-    let dead = all_dead();
+fn judge(r: &mut UnitResult, cs: &[Case], ctx: &Ctx) {
+    let dead = all_dead(ctx);
     let lim = Limits { wall: std::time::Duration::from_secs(300), address_space: 3 << 30, stack: 0 };
     let exit = isolate::run(&lim, || {
         let reference = observe(&mut fresh_interp());
@@ -331,6 +411,12 @@ fn judge(r: &mut UnitResult, cs: &[Case]) {
                 let d = &dead[*di];
                 match s {
                     None => ends.push(run_to_end(&mut interp, &d.src, d.module_path.as_deref(), 200_000)),
+                    Some(k) if d.stall => {
+                        if !run_stall(&mut interp, &d.src, d.module_path.as_deref(), *k) {
+                            real = false;
+                        }
+                        ends.push(format!("abandoned-after-{}-answers", k));
+                    }
                     Some(s) => {
                         if !run_abandon(&mut interp, &d.src, *s) {
                             real = false;
@@ -405,7 +491,7 @@ impl Check for C11 {
         let cs = cases(ctx);
         let lo = idx * PER_UNIT;
         let hi = (lo + PER_UNIT).min(cs.len());
-        judge(&mut r, &cs[lo..hi]);
+        judge(&mut r, &cs[lo..hi], ctx);
         if let Some(c) = cs.get(lo) {
             r.sample(json!({"history": c.id, "observers": observers().iter().map(|o| o.0.clone()).collect::<Vec<_>>()}));
         }
@@ -416,11 +502,14 @@ impl Check for C11 {
         let mut r = UnitResult::default();
         let id = case["id"].as_str().unwrap_or("");
         let thorough = Ctx { tier: Tier::Thorough, ..ctx.clone() };
-        let mut cs: Vec<Case> = cases(&thorough).into_iter().filter(|c| c.id == id).collect();
+        // (history indices refer to the program list of the tier that produced them)
+        let cs: Vec<Case> = cases(&thorough).into_iter().filter(|c| c.id == id).collect();
         if cs.is_empty() {
-            cs = cases(ctx).into_iter().filter(|c| c.id == id).collect();
+            let cs: Vec<Case> = cases(ctx).into_iter().filter(|c| c.id == id).collect();
+            judge(&mut r, &cs, ctx);
+        } else {
+            judge(&mut r, &cs, &thorough);
         }
-        judge(&mut r, &cs);
         r
     }
 }
